@@ -41,7 +41,7 @@
   acyclic grammars without re-evaluation, C03_Beap_stable_of_acyclic) and `Productive E` (every non-terminal
   derives a program, so that no placeholder is left after the prologue):
     * C03_Beap_cost_inv        — COST SOUNDNESS as a state invariant of the query phase (`CInv`), for every
-        history of next / merge_program calls after the first next: every queue element of rule P and
+        history of next / merge_program calls (also before the first next): every queue element of rule P and
         combination c carries the cost  cost(P) + Σ_i _cost_lists[arg_i][c_i], every program of _bank[S][i] has
         cost _cost_lists[S][i], cost lists are only extended at their end;
     * C03_Beap_yield_cost      — the program yielded while the generator's counter is n has cost
@@ -53,7 +53,7 @@
         evaluates on every generated case (certified checking).
   THE FULL ORDER STATEMENT under POSITIVE rule costs (`PosW`: every rule cost > 0, i.e. every probability < 1;
   with a zero-cost cycle query() does not terminate):
-    * C03_Beap_order_inv       — the ORDER INVARIANTS hold for every history after the first next: EVERY COST
+    * C03_Beap_order_inv       — the ORDER INVARIANTS hold for every history of next / merge_program calls: EVERY COST
         LIST IS STRICTLY INCREASING, every queue element is at least as expensive as every entry of the cost
         list of its non-terminal, every queue is a heap, every cost is finite and positive.  Key lemma
         (`order_all`, PS/Proofs/Enum/BeapOrderFull.lean): a query running for S at cost x only asks for cost
@@ -72,6 +72,7 @@ import PS.Proofs.Enum.BeapHeadMin
 import PS.Proofs.Enum.BeapOrderRun
 import PS.Proofs.Enum.BeapOrderFinal
 import PS.Proofs.Enum.BeapAcyclic
+import PS.Proofs.Enum.BeapFreshRun
 import PS.Props.C02_Beap
 namespace PS.C03Beap
 open PS PS.G PS.Beap PS.Heapq PS.C02Beap
@@ -161,12 +162,6 @@ theorem ranked_of_check (E : Env S) (rank : NT S Unit → Nat)
     rw [List.all_eq_true] at h4
     simpa using h4 a ha
 
-/-- the generator objects reachable after the first `next`, by any history of `next` / `merge_program` -/
-inductive ReachS (E : Env S) (fuel : Nat) : Gen S → Prop
-  | first {r : Gen S × Option Prog} : Beap.next E fuel (Gen.new E.G) = some r → ReachS E fuel r.1
-  | next {g : Gen S} {r : Gen S × Option Prog} : ReachS E fuel g → Beap.next E fuel g = some r → ReachS E fuel r.1
-  | merge {g : Gen S} (other : Prog) (ok : NT S Unit → Bool) : ReachS E fuel g → ReachS E fuel (Beap.merge g other ok)
-
 theorem gc_new (E : Env S) : GC E (Gen.new E.G) := by
   refine ⟨⟨fun nt c hc => ?_, fun nt el he => ?_, fun nt ci p hp => ?_⟩, fun fr he => by cases he⟩
   · have : (St.empty E.G).clOf nt = [] := lookup_map_nil E.G.rules nt
@@ -176,50 +171,58 @@ theorem gc_new (E : Env S) : GC E (Gen.new E.G) := by
   · have : (St.empty E.G).bankOf nt = [] := lookup_map_nil E.G.rules nt
     simp [show (Gen.new E.G).st = St.empty E.G from rfl, St.bankAt, this] at hp
 
-theorem reachS_started (E : Env S) (fuel : Nat) (g : Gen S) (h : ReachS E fuel g) : g.started = true := by
+/-- **COST SOUNDNESS and the ORDER INVARIANTS as state invariants, for EVERY history** of `next` / `merge_program`
+    calls from the fresh generator (`C02Beap.Reach`; `merge_program` may also be called before the first `next`) -/
+theorem C03_Beap_inv (E : Env S) (hnd : RowsNodup E.G) (hst : StableAfter E) (hprod : Productive E) (hpos : PosW E) (fuel : Nat)
+    (g : Gen S) (h : C02Beap.Reach E fuel g) :
+    GC E g ∧ GO E g ∧ (g.started = false → Fresh E g.st ∧ g.frame = none) := by
   induction h with
-  | @first r hn =>
-    unfold Beap.next at hn
-    simp only [Gen.new, Bool.false_eq_true, if_false] at hn
-    split at hn
-    · cases hn
-    · exact next_cost.nextLoop_started E fuel _ _ _ _ _ _ hn
+  | new => exact ⟨gc_new E, go_new E, fun _ => ⟨fresh_empty E, rfl⟩⟩
   | @next g r _ hn ih =>
-    unfold Beap.next at hn
-    split at hn
-    · cases hn; exact ih
-    · exact next_cost.nextLoop_started E fuel _ _ _ _ _ _ hn
-  | @merge g other ok _ ih => exact ih
+    obtain ⟨q1, q2, _, _, q5⟩ := next_co E hnd hst hprod hpos fuel g r ih.1 ih.2.1 ih.2.2 hn
+    refine ⟨q1, q2, fun hs => ?_⟩
+    rcases q5 with h1 | h1
+    · rw [h1] at hs; cases hs
+    · rw [h1] at hs ⊢; exact ih.2.2 hs
+  | @merge g other ok _ ih =>
+    refine ⟨merge_cost E g other ok ih.1, merge_order E g other ok ih.2.1, fun hs => ?_⟩
+    have hs' : g.started = false := hs
+    exact ⟨merge_fresh E g other ok (ih.2.2 hs').1, (ih.2.2 hs').2⟩
 
-/-- **COST SOUNDNESS as a state invariant**, for every history after the first `next` -/
+/-- **COST SOUNDNESS as a state invariant**, for every history (no positivity hypothesis) -/
 theorem C03_Beap_cost_inv (E : Env S) (hnd : RowsNodup E.G) (hst : StableAfter E) (hprod : Productive E) (fuel : Nat)
-    (g : Gen S) (h : ReachS E fuel g) : GC E g := by
+    (g : Gen S) (h : C02Beap.Reach E fuel g) : GC E g ∧ (g.started = false → Fresh E g.st ∧ g.frame = none) := by
   induction h with
-  | @first r hn => exact (next_cost E hnd hst hprod fuel _ r (gc_new E) (fun _ => ⟨rfl, rfl⟩) hn).1
-  | @next g r hr hn ih =>
-    have hstd := reachS_started E fuel g hr
-    exact (next_cost E hnd hst hprod fuel g r ih (fun hs => by rw [hstd] at hs; cases hs) hn).1
-  | @merge g other ok _ ih => exact merge_cost E g other ok ih
+  | new => exact ⟨gc_new E, fun _ => ⟨fresh_empty E, rfl⟩⟩
+  | @next g r _ hn ih =>
+    obtain ⟨q1, _, _, q5⟩ := next_c E hnd hst hprod fuel g r ih.1 ih.2 hn
+    refine ⟨q1, fun hs => ?_⟩
+    rcases q5 with h1 | h1
+    · rw [h1] at hs; cases hs
+    · rw [h1] at hs ⊢; exact ih.2 hs
+  | @merge g other ok _ ih =>
+    refine ⟨merge_cost E g other ok ih.1, fun hs => ?_⟩
+    have hs' : g.started = false := hs
+    exact ⟨merge_fresh E g other ok (ih.2 hs').1, (ih.2 hs').2⟩
 
 /-- every program of `_bank[S][i]` has cost `_cost_lists[S][i]`; every queue element is priced by its combination -/
 theorem C03_Beap_bank_cost (E : Env S) (hnd : RowsNodup E.G) (hst : StableAfter E) (hprod : Productive E) (fuel : Nat)
-    (g : Gen S) (h : ReachS E fuel g) :
+    (g : Gen S) (h : C02Beap.Reach E fuel g) :
     (∀ nt ci p, p ∈ g.st.bankAt nt ci → ∃ c, (g.st.clOf nt)[ci]? = some c ∧ c.inf = 0 ∧ costOf E p nt = some c.fin) ∧
     (∀ nt el, el ∈ g.st.queueOf nt → ∃ rl w k, E.G.rule? nt el.P = some rl ∧ ruleW E nt el.P = some w ∧
       combCost g.st rl.1 el.comb = some k ∧ el.cost = Cost.ofRat (w + k)) := by
-  have hc := (C03_Beap_cost_inv E hnd hst hprod fuel g h).1
+  have hc := (C03_Beap_cost_inv E hnd hst hprod fuel g h).1.1
   refine ⟨fun nt ci p hp => ?_, hc.queue⟩
   obtain ⟨c, h1, h2⟩ := hc.bank nt ci p hp
   exact ⟨c, h1, hc.fin nt c (List.mem_of_getElem? h1), h2⟩
 
 /-- the program yielded while the generator's counter is `n` has cost `_cost_lists[start][n]`; `n` never decreases -/
 theorem C03_Beap_yield_cost (E : Env S) (hnd : RowsNodup E.G) (hst : StableAfter E) (hprod : Productive E) (fuel : Nat)
-    (g g' : Gen S) (p : Prog) (h : ReachS E fuel g) (hn : Beap.next E fuel g = some (g', some p)) :
-    g.n ≤ g'.n ∧ ∃ c, (g'.st.clOf E.G.start)[g'.n]? = some c ∧ costOf E p E.G.start = some c.fin := by
-  have hstd := reachS_started E fuel g h
-  obtain ⟨_, _, q3, q4⟩ := next_cost E hnd hst hprod fuel g _ (C03_Beap_cost_inv E hnd hst hprod fuel g h)
-    (fun hs => by rw [hstd] at hs; cases hs) hn
-  exact ⟨q3 hstd, (q4 p rfl).2⟩
+    (g g' : Gen S) (p : Prog) (h : C02Beap.Reach E fuel g) (hn : Beap.next E fuel g = some (g', some p)) :
+    (g.started = true → g.n ≤ g'.n) ∧ ∃ c, (g'.st.clOf E.G.start)[g'.n]? = some c ∧ costOf E p E.G.start = some c.fin := by
+  obtain ⟨i1, i3⟩ := C03_Beap_cost_inv E hnd hst hprod fuel g h
+  obtain ⟨_, q3, q4, _⟩ := next_c E hnd hst hprod fuel g _ i1 i3 hn
+  exact ⟨q3, (q4 p rfl).2⟩
 
 /-- the programs produced by `take k` from the fresh generator are yielded at non-decreasing indices of
     the (final) cost list of the start symbol -/
@@ -251,21 +254,14 @@ end
 section
 variable {S : Type} [DecidableEq S]
 
-/-- **the order invariants, for every history after the first `next`** -/
+/-- **the order invariants, for every history** -/
 theorem C03_Beap_order_inv (E : Env S) (hnd : RowsNodup E.G) (hst : StableAfter E) (hprod : Productive E) (hpos : PosW E)
-    (fuel : Nat) (g : Gen S) (h : ReachS E fuel g) : GO E g := by
-  induction h with
-  | @first r hn => exact next_order E hnd hst hprod hpos fuel _ r (gc_new E) (go_new E) (fun _ => ⟨rfl, rfl⟩) hn
-  | @next g r hr hn ih =>
-    have hstd := reachS_started E fuel g hr
-    exact next_order E hnd hst hprod hpos fuel g r (C03_Beap_cost_inv E hnd hst hprod fuel g hr) ih
-      (fun hs => by rw [hstd] at hs; cases hs) hn
-  | @merge g other ok _ ih => exact merge_order E g other ok ih
+    (fuel : Nat) (g : Gen S) (h : C02Beap.Reach E fuel g) : GO E g := (C03_Beap_inv E hnd hst hprod hpos fuel g h).2.1
 
 /-- every cost list is strictly increasing; every queue element is at least as expensive as every entry of
     the cost list of its non-terminal; every queue is a heap -/
 theorem C03_Beap_costlists_increasing (E : Env S) (hnd : RowsNodup E.G) (hst : StableAfter E) (hprod : Productive E)
-    (hpos : PosW E) (fuel : Nat) (g : Gen S) (h : ReachS E fuel g) (nt : NT S Unit) :
+    (hpos : PosW E) (fuel : Nat) (g : Gen S) (h : C02Beap.Reach E fuel g) (nt : NT S Unit) :
     (g.st.clOf nt).Pairwise (fun a b => a.fin < b.fin) ∧
     (∀ el c, el ∈ g.st.queueOf nt → c ∈ g.st.clOf nt → c.fin ≤ el.cost.fin) ∧
     Heapq.IsHeap ltE (g.st.queueOf nt) := by
